@@ -197,7 +197,7 @@ def run(ctx):
     roots = [exc("socket.timeout"), exc("ssl.SSLError"), exc("http.client.IncompleteRead"), exc("http.client.HTTPException"),
              exc("builtins.OSError"), BASE_TOP]
     rule = RespRule(fp_raises=roots)
-    inline = set(helper_closure(m, [m.method(HR, "release_conn")]))
+    inline = set(helper_closure(m, [m.method(HR, "release_conn"), m.method(HR, "_error_catcher")]))
     seeds = _resp_seeds()
     seeds[("self", "_connection")] = AV("obj", "conn", truth=True, none=False)
     seeds[("self", "_pool")] = AV("obj", "pool", truth=True, none=False)
@@ -295,7 +295,7 @@ def run(ctx):
     seeds = _resp_seeds()
     seeds[("self", "_connection")] = AV("obj", "conn", truth=True, none=False)
     seeds[("self", "_pool")] = AV("obj", "pool", truth=True, none=False)
-    outs, it = run_function(m, fi, rule, HR, inline=set(helper_closure(m, [m.method(HR, "release_conn")])), seeds=seeds)
+    outs, it = run_function(m, fi, rule, HR, inline=set(helper_closure(m, [m.method(HR, "release_conn"), m.method(HR, "_error_catcher")])), seeds=seeds)
     ctx.states += it.budget.steps
     dn = [o for o in outs if o.kind != "raise"]
     ctx.sites(R7, len(dn), 1, "normal exits of drain_conn")
@@ -318,7 +318,7 @@ def run(ctx):
     seeds = _resp_seeds()
     seeds[("self", "_connection")] = AV("obj", "conn", truth=True, none=False)
     seeds[("self", "_pool")] = AV("obj", "pool", truth=True, none=False)
-    outs, it = run_function(m, fi, rule, HR, inline=set(helper_closure(m, [m.method(HR, "release_conn")])), seeds=seeds)
+    outs, it = run_function(m, fi, rule, HR, inline=set(helper_closure(m, [m.method(HR, "release_conn"), m.method(HR, "_error_catcher")])), seeds=seeds)
     normal = [o for o in outs if o.kind != "raise"]
     ctx.sites(R7, len(normal), 1, "normal exits of close()")
     released = [o for o in normal if o.st.ts.get("put")]
